@@ -257,6 +257,12 @@ class CallListerVisitor(ast.NodeVisitor):
                 self.visit(name)
 
     def visit_FunctionDef(self, node):
+        # default values and decorators are evaluated in the enclosing scope
+        for expr in getattr(node, 'decorator_list', []):
+            self.visit(expr)
+        for expr in node.args.defaults + node.args.kw_defaults:
+            if expr is not None:
+                self.visit(expr)
         self.namespace = Namespace(self.namespace)
         self.process_parameters(node.args)
         body = node.body
